@@ -86,10 +86,6 @@ def eval_set(e: ast.expr, env: Dict[str, bool]) -> bool:
 
 def check(ck: Checker) -> None:
     _lints(ck, "C12.aliasing", "hashfile.status")
-    from . import round4 as _r4
-
-    _r4.index_memo_reset(ck, "C12.indexwrite")
-    _r4.status_exists_provenance(ck, "C12.status")
     prog, res = ck.prog, ck.res
     ck.decided = [
         "C12.partition: compare_status's four components are, as set algebra over the two status() answers, ok=s&d, missing=~s&~d, new=s&~d, deleted=~s&d (field order read from CompareStatusResult); the 'skip the source query' shortcut is taken only when nothing is missing in dest AND deleted was not requested",
@@ -106,6 +102,11 @@ def check(ck: Checker) -> None:
     check_index_read_after_validation(ck, "C12.fromstore")
     _indexwrite(ck)
     _routing(ck)
+    from . import round4 as _r4
+
+    _r4.index_memo_reset(ck, "C12.indexwrite")
+    _r4.status_exists_provenance(ck, "C12.status")
+
 
 
 def _partition(ck: Checker) -> None:
